@@ -73,7 +73,8 @@ _TRUSTED = [
     "extracted checkers check_c14 / check_c15 / no_panic, of the extracted printers and wf predicates and of the "
     "extracted reader+parser models; FNV-64 comparison of the printed file)",
     "Rust harness harness/src/bin/io.rs (record generators and mutators, printers compared through FNV-64 of the file "
-    "with IoPrint.print_file, BufReader capacities and a custom cyclic-chunk BufRead, catch_unwind, call cap = hang)",
+    "with IoPrint.print_file, BufReader capacities and a custom cyclic-chunk BufRead, catch_unwind, call cap and a "
+    "per-case watchdog thread = hang)",
     "modelled, not verified: lightmotif-io/src/{jaspar,jaspar16,uniprobe}/{mod,parse}.rs and error.rs as Gallina "
     "functions (IoJaspar.v, IoUniprobe.v); the nom 7.1.3 combinators used (IoNom.v; nom error kinds not compared); "
     "std BufRead::read_until / read_line over fill_buf/consume (IoBase.read_until over a list of chunks), "
@@ -119,7 +120,7 @@ C14_SPEC = dict(
     module="LMIo.C14io",
     harness_args=["c14"],
     driver_args=["c14"],
-    n={"quick": 90, "thorough": 2500},
+    n={"quick": 200, "thorough": 2500},
     search_n={"quick": 300, "thorough": 3000},
     nontrivial=_nontrivial_c14,
     histogram=_hist_c14,
@@ -129,7 +130,10 @@ C14_SPEC = dict(
          "first '>' and white space after the last record) by the canonical printers (= IoPrint.print_file, compared "
          "through a hash of the file), plus the bundled benches/JASPAR2024.pwm (2346 records), tests/*.pfm and "
          "tests/*.uniprobe; each file read through BufReader capacities 1,2,3,5,17,64,8192 and two custom BufReads "
-         "with cyclic random chunk sizes. Checked: under every chunking the outcomes are exactly the written records "
+         "with cyclic random chunk sizes. Checked: what the generator printed meets the boolean hypotheses of the "
+         "round-trip theorems (extracted wf_jaspar / wf_jaspar16 / wf_uniprobe + wf_prefix / wf_blank_prefix / wf_suffix; "
+         "UniPROBE files with a white-space suffix are outside the theorem and only compared with the model); under "
+         "every chunking the outcomes are exactly the written records "
          "(id, description, every cell = the token of its position in the line of its symbol, other columns 0: "
          "IoPrint.record_of) then END (extracted check_c14, proved sound), and equal the extracted reader+parser model "
          "run on the same chunk list. Non-trivial: distinct files with >= 2 records, or bundled files.",
